@@ -188,6 +188,16 @@ func c13Structs(c *enumx.Ctx) {
 			checkBuildTotal(c, fmt.Sprintf("FileWatchRule{%q,%v}", trunc(p), ps), &rule.FileWatchRule{Type: rule.FileWatchRuleType, Path: p, Permissions: ps}, len(p))
 		}
 	}
+	// file watches on what is ON DISK: links, loops, links below files
+	wdir, cleanup := scratch()
+	for _, rel := range []string{"f", "d", "nope", "ld", "lf", "ldangling", "lloop", "lnotdir", "lld", "lloop/x", "f/x", "ld/", "lf/"} {
+		if !c.Mine() {
+			continue
+		}
+		checkBuildTotal(c, "FileWatchRule{scratch/"+rel+"}", &rule.FileWatchRule{Type: rule.FileWatchRuleType, Path: wdir + "/" + rel, Permissions: []rule.AccessType{rule.WriteAccessType}}, 64)
+		checkBuildTotal(c, "SyscallRule{dir=scratch/"+rel+"}", &rule.SyscallRule{Type: rule.AppendSyscallRuleType, List: "exit", Action: "always", Filters: []rule.FilterSpec{{Type: rule.ValueFilterType, LHS: "dir", Comparator: "=", RHS: wdir + "/" + rel}, {Type: rule.ValueFilterType, LHS: "perm", Comparator: "=", RHS: "wa"}}}, 64)
+	}
+	cleanup()
 	// other Rule values
 	for _, r := range []struct {
 		d string
